@@ -207,6 +207,31 @@ def tlc(module, cfg, workdir=None, workers=None, timeout=600, env=None, extra=()
 _walker_bin = None
 
 
+def tlapm(chk, module, timeout=600):
+    """Check the proofs of /verif/spec/<module>.tla with the TLA+ proof system (unbounded complement to the TLC runs;
+    about the model only: a failed obligation is reported as MODEL-CEX, never as a verdict)."""
+    wd = scratch("tlaps")
+    for f in os.listdir(SPEC):
+        if f.endswith(".tla"):
+            shutil.copy(os.path.join(SPEC, f), wd)
+    t0 = time.time()
+    try:
+        p = subprocess.run(["tlapm", "--threads", "4", "--cleanfp", module + ".tla"], cwd=wd, stdout=subprocess.PIPE,
+                           stderr=subprocess.STDOUT, text=True, timeout=timeout)
+    except subprocess.TimeoutExpired:
+        raise FrameworkError("tlapm timeout on " + module)
+    m = re.search(r"All (\d+) obligations? proved", p.stdout)
+    rec = {"module": module, "proved": bool(m), "obligations": int(m.group(1)) if m else 0, "wall_s": round(time.time() - t0, 1)}
+    chk.cov.setdefault("tlaps", []).append(rec)
+    if not m:
+        chk.notes.append("MODEL-CEX: tlapm could not prove every obligation of " + module)
+        log("MODEL-CEX (not a verdict): tlapm on %s: %s" % (module, p.stdout.strip().splitlines()[-8:]))
+    else:
+        log("  tlapm %s: all %d obligations proved (%.1fs)" % (module, rec["obligations"], rec["wall_s"]))
+    shutil.rmtree(wd, ignore_errors=True)
+    return rec
+
+
 def walks(r, max_len=300):
     """Covering walks over the transitions TLC emitted in result r (tools/walker, Go).
     Returns (list of dict(init, cf, acts), stats)."""
